@@ -347,7 +347,7 @@ func runCache(tier string, seed int64, summaryPath, outPath string) {
 	// readers hold the lock: every sequential order ends with "stored and listed once for both parties" or "gone from everywhere"
 	{
 		h, _ := cache.New(32*10_000, 128)
-		for round := 0; round < nConc*2; round++ {
+		for round := 0; round < nConc*20; round++ {
 			t := transaction.Transaction{CreatedAt: time.Now(), IssuerAddress: addrs[2], ReceiverAddress: addrs[3], Subject: "r", Data: []byte{1}, Spice: spice.Melange{Currency: 1}}
 			t.Hash[0], t.Hash[1], t.Hash[2], t.Hash[3] = 1, 0x55, byte(round), byte(round>>8)
 			h.SaveAwaitedTransaction(&t)
